@@ -418,6 +418,30 @@ def chunks(lst, n):
         yield lst[i:i + n]
 
 
+def pool_map(fn, items, timeout=6 * 3600):
+    """Process-pool map that cannot hang: a worker that dies in the middle of a task (its task would be lost and Pool.map would wait
+    for ever) or an overall timeout is an infrastructure failure (exit 2), never a verdict."""
+    import multiprocessing, time
+    p = multiprocessing.get_context("fork").Pool(NCPU)
+    try:
+        pids = set(w.pid for w in p._pool)
+        ar = p.map_async(fn, items, chunksize=1)
+        t0 = time.time()
+        while not ar.ready():
+            ar.wait(2)
+            if set(w.pid for w in p._pool) != pids or any(w.exitcode is not None for w in p._pool):
+                raise Infra("a pool worker process died in the middle of a task")
+            if time.time() - t0 > timeout:
+                raise Infra("process pool timed out after %d s" % timeout)
+        res = ar.get()
+        p.close()
+        p.join()
+        return res
+    except BaseException:
+        p.terminate()
+        raise
+
+
 def parallel_map(fn, items, workers=None):
     """Thread pool (the work is subprocess-bound)."""
     from concurrent.futures import ThreadPoolExecutor
